@@ -61,6 +61,11 @@ def applyOp (f : Forest) (j : Json) : Forest × Json :=
       | some e => (match childAtPath e (f.ctxOf n) ((jstr j "path").splitOn "/" |>.filter (· ≠ "")) with
           | some c => Json.num c.id | none => .null)
       | none => .null)
+  | "childrenAtPath" =>
+    (f, match f.find n with
+      | some e => Json.arr ((childrenAtPath e (f.ctxOf n) ((jstr j "path").splitOn "/" |>.filter (· ≠ ""))).map
+          fun c => Json.num c.id).toArray
+      | none => .null)
   | "getAttribute" =>
     (f, match f.find n with
       | some e => (match getAttrIdx e (f.ctxOf n) (jstr j "name") with | some k => Json.num k | none => .null)
